@@ -369,9 +369,11 @@ impl Cell {
 
     pub fn random_safety(&self, rng: &mut Rng, mode: CheckMode) -> SafetySpec {
         let dist = |rng: &mut Rng| (rng.logu(0.004, 0.12) as f32 * 1000.0).round() / 1000.0;
-        let to_environment = if rng.bool(0.3) { 0.0 } else { dist(rng) };
+        // (touch-only is written as +0.0 or as -0.0, e.g. the result of `-margin` with a zero margin)
+        let zero = |rng: &mut Rng| if rng.bool(0.25) { -0.0f32 } else { 0.0f32 };
+        let to_environment = if rng.bool(0.3) { zero(rng) } else { dist(rng) };
         let to_robot_default = match rng.usize(10) {
-            0..=3 => 0.0,
+            0..=3 => zero(rng),
             4 => NEVER_COLLIDES,
             _ => {
                 let mut d = dist(rng);
@@ -399,7 +401,7 @@ impl Cell {
             }
             let v = match rng.usize(4) {
                 0 | 1 => NEVER_COLLIDES,
-                2 => 0.0,
+                2 => zero(rng),
                 _ => dist(rng),
             };
             // both key orders occur
